@@ -105,7 +105,11 @@ T_OpEnd == /\ IsEvent("op_end")
            /\ LET c == E.task IN
               /\ G("oe.cur", cur = c /\ ~yl)
               /\ G("oe.n", cli[c].n = E.n)
-              /\ IF cli[c].stage = "idle"
+              /\ IF E.res = "cancelled"
+                 THEN \* polled once, still pending, dropped: the spec must agree that it could not complete yet
+                      /\ G("oe.cancel." \o cli[c].op, cli[c].stage # "idle" /\ ~ClientContEnabled(c))
+                      /\ Abandon(c) /\ UNCHANGED <<cur, yl>>
+                 ELSE IF cli[c].stage = "idle"
                  THEN LastMatches(cli[c].op, cli[c].last) /\ UNCHANGED vars
                  ELSE /\ ~(cli[c].stage = "flush" /\ cli[c].op = "call")     \* routing: that step is silent
                       /\ G("oe.ready." \o cli[c].op, ClientContEnabled(c))
